@@ -298,7 +298,9 @@ def history_obs(task):
     # a final step so that the digests of every returned symbol are looked at once more
     log.steps.append({'thread': 't1', 'what': 'run', 'call': names[-1], 'tables': tables_digest(), 'symbols': [result_digest(x) for x in log.returned],
                       'args_before': '', 'args_after': '', 'result': 'none'})
-    return log.obs('history ' + ' -> '.join(names))
+    o = log.obs('history ' + ' -> '.join(names))
+    o['_task'] = {'type': 'history', 'names': names, 'extra': extra}
+    return o
 
 
 # ------------------------------------------------------------------ thread schedules (deterministic baton scheduler)
@@ -450,7 +452,9 @@ def schedule_obs(task):
         raise common.MachineryError('scheduler deadlock in ' + what)
     log.steps.append({'thread': 't1', 'what': 'run', 'call': names[0], 'tables': tables_digest(), 'symbols': [result_digest(x) for x in log.returned],
                       'args_before': '', 'args_after': '', 'result': 'none'})
-    return log.obs(what)
+    o = log.obs(what)
+    o['_task'] = {'type': 'schedule', 'names': names, 'plan': plan, 'what': what}
+    return o
 
 
 def plan_from_tlc(schedule, events):
@@ -603,7 +607,7 @@ def run_c15(rep, tier):
                     'tlc_fails': fails})
         if fails:
             bad = [s for s in o['steps'] if s['what'] in ('return', 'reencode') and s['result'] != o['ref'].get(s['call'])]
-            rep.violation({'kind': 'purity', 'module': 'props_purity', 'what': o['_what'], 'failing_clauses': fails,
+            rep.violation({'kind': 'purity', 'module': 'props_purity', 'what': o['_what'], 'failing_clauses': fails, 'task': o.get('_task'),
                            'differing_steps': [{k: s[k] for k in ('thread', 'what', 'call', 'result')} for s in bad[:5]], 'ref': o['ref']},
                           f"{o['_what']}: fails {fails}")
     rep.exhaustive = False
@@ -619,7 +623,32 @@ def run_c15(rep, tier):
 
 
 def replay(pid, d):
-    print('replay: histories are re-executed by bin/check C15 (seeded); failing history:', d.get('what'))
+    """re-executes the recorded history / schedule (in a freshly forked process) and validates its log"""
+    common.use_repo()
+    t = d.get('task')
+    if not t:
+        print('no task recorded:', d.get('what'))
+        return 1
+    A = alphabet(d.get('seed', 0))
+    with ThreadPoolExecutor(max_workers=4) as ex:
+        ref = dict(ex.map(fresh_reference, [(n, A[n]) for n in sorted(set(t['names']))]))
+    ctx = mp.get_context('fork')
+    with ctx.Pool(1, maxtasksperchild=1) as pool:
+        if t['type'] == 'history':
+            o = pool.apply(history_obs, ((t['names'], A, ref, t.get('extra', True)),))
+        else:
+            o = pool.apply(schedule_obs, ((t['names'], A, ref, t['plan'], t['what']),))
+    verdicts, _ = common.validate_observations(pid + '_replay', 'Trace_Purity', [o], shards=1, tag='purity')
+    v = verdicts[o['tid']]
+    fails = sorted(c for (p, c) in v['fails'])
+    print('history :', o['_what'])
+    for s_ in o['steps']:
+        if s_['what'] in ('return', 'reencode'):
+            print('  ', s_['thread'], s_['what'], s_['call'], s_['result'], '(fresh interpreter: %s)' % o['ref'].get(s_['call']))
+    print('verdict :', fails)
+    if not fails:
+        return 0
+    print(f'VIOLATION property={pid} replay=(this file)')
     return 1
 
 
